@@ -149,14 +149,17 @@ JOBS['C20'] = [
 
 # ---------------------------------------------------------------- C10
 META['C10'] = {
-    'bounds': {'quick': '90 pattern templates (literals, ., brackets with ranges/negation/classes, ^ $ \\< \\>, groups, |, * + ? {m,n}, nesting depth 2, up to 4 groups) with symbolic placeholder characters over {a A 1 U+00E9} x all newline-terminated lines of <=2 characters over that alphabet plus space x icase x notbol x noteol; sets of 2-3 patterns',
-               'thorough': 'lines of <=3 characters, alphabet {a b A 1 _ U+00E9 U+00C9 space}'},
+    'bounds': {'quick': '90 pattern templates (literals, ., brackets with ranges/negation/classes, ^ $ \\< \\>, groups, |, * + ? {m,n}, nesting depth 2, up to 4 groups) with symbolic placeholder characters over {a A 1 U+00E9} x all newline-terminated lines of <=2 characters over that alphabet plus space x icase x notbol x noteol; 8 templates with open-ended bounds {2,} on lines of <=3 characters; sets of 2-3 patterns',
+               'thorough': 'lines of <=3 characters, alphabet {a b A 1 _ U+00E9 U+00C9 space}; open-ended bounds on lines of <=4 characters'},
     'outside': 'lines longer than the bound; patterns outside the templates (C11 covers their safety); completeness is asserted only on paths where fewer than 256 re_rec frames were live (engine-side observation instead of a source hook)',
     'assumptions': ['reference semantics: leftmost start, greedy quantifiers, left-biased alternation, captures of the last iteration (harness/ref_re.h); case folding of ASCII letters only, as in the C locale'],
 }
 JOBS['C10'] = [
     {'name': 'templates', 'harness': 'c10_re.c', 'units': ['rset', 'regex', 'sbuf', 'uc'], 'track': 're_rec',
      'defs': {'quick': {'LL': 2}, 'thorough': {'LL': 3, 'WIDE': 1}}, 'variants': [{'TSET': i} for i in range(5)],
+     'expect_reach': ['end', 'found', 'notfound', 'agree'], 'timeout': {'quick': 280, 'thorough': 1700}, 'max_steps': 5000000},
+    {'name': 'open_bounds', 'harness': 'c10_re.c', 'units': ['rset', 'regex', 'sbuf', 'uc'], 'track': 're_rec',
+     'defs': {'quick': {'LL': 3, 'TSET': 6}, 'thorough': {'LL': 4, 'TSET': 6}},
      'expect_reach': ['end', 'found', 'notfound', 'agree'], 'timeout': {'quick': 280, 'thorough': 1700}, 'max_steps': 5000000},
     {'name': 'nullable_loops', 'harness': 'c10_re.c', 'units': ['rset', 'regex', 'sbuf', 'uc'], 'track': 're_rec', 'tiers': ['thorough'],
      'defs': {'LL': 1, 'TSET': 5},
@@ -284,9 +287,9 @@ JOBS['C05'] = [
 
 # ---------------------------------------------------------------- C19
 META['C19'] = {
-    'bounds': {'quick': 'all sequences of 2 commands from a 43-entry menu (j k G H L ^E ^Y ^D ^U ^F ^B z<CR> z. z- dd x o O p P J u ^R :d :1,3d :$ $ 0 3G 2dd yyP 5j w A :2 ^E^E Hdk Hck Ld2j Hjd2k, multi-line inserts whose first line runs past the right edge) on buffers of 3 and 12 lines (and 12 lines with one long line) in a 6x20 window, and of 1 command on an empty buffer and in a 4x10 window; highlighting off',
+    'bounds': {'quick': 'all sequences of 2 commands from a 47-entry menu (j k G H L ^E ^Y ^D ^U ^F ^B z<CR> z. z- dd x o O p P J u ^R :d :1,3d :$ $ 0 3G 2dd yyP 5j w A :2 ^E^E Hdk Hck Ld2j Hjd2k, multi-line inserts whose first line runs past the right edge, $j $k 30| j$ leaving a remembered column beyond a short line) on buffers of 3 and 12 lines (and 12 lines with one long line) in a 6x20 window, and of 1 command on an empty buffer and in a 4x10 window; 2 commands of 20 (j k $ 0 x 25l 12l h dd u p yyP G H ^E D 30| 5| jj 3x) on a buffer with right-to-left lines of 32 and 16 Arabic letters (shaping off) in the same window; highlighting off',
                'thorough': 'sequences of 3 commands on the 12-line buffers'},
-    'outside': 'order/RTL rendering on screen; highlighting on (the emulator ignores attributes; only A==B is meaningful there); multiple windows; lines with tabs or wide characters (the cell oracle is ASCII)',
+    'outside': 'mixed-direction lines and shaped letters on screen (right-to-left lines are pure runs of two-byte letters); highlighting on (the emulator ignores attributes; only A==B is meaningful there); multiple windows; lines with tabs or wide characters (the cell oracle is ASCII)',
     'assumptions': ['the terminal is the VT100 subset of harness/vt.h (CUP, CUF/CUB, EL, IL, DL, DECSTBM, SGR ignored, CR, LF)', 'the editor state is observed between two commands through the environment hook that fires when the next key is read'],
 }
 JOBS['C19'] = [
@@ -296,6 +299,9 @@ JOBS['C19'] = [
     {'name': 'screen_small', 'harness': 'c19_screen.c', 'units': 'ALL', 'defs': {'N': 1},
      'variants': [{'BUF': 0}, {'BUF': 2, 'ROWS': 4, 'COLS': 10}, {'BUF': 3, 'ROWS': 4, 'COLS': 10}], 'expect_reach': ['end'],
      'timeout': {'quick': 280, 'thorough': 1700}, 'max_steps': 60000000, 'validate': {'quick': 4, 'thorough': 8}},
+    {'name': 'screen_rtl', 'harness': 'c19_screen.c', 'units': 'ALL', 'defs': {'quick': {'N': 2}, 'thorough': {'N': 3}},
+     'variants': [{'BUF': 4}], 'expect_reach': ['end'],
+     'timeout': {'quick': 280, 'thorough': 3000}, 'max_steps': 60000000, 'validate': {'quick': 4, 'thorough': 8}},
 ]
 
 # ---------------------------------------------------------------- C09
